@@ -201,3 +201,32 @@ EXPECTED_NODES = {'Getattr.as_const': "arguments(posonlyargs=[], args=[arg(arg='
                      '    return eval_ctx.environment.getitem(obj, arg)\n'
                      'except Exception as e:\n'
                      '    raise Impossible() from e'}
+EXPECTED_FILTERS = {'make_multi_attrgetter': "def make_multi_attrgetter(environment: 'Environment', attribute: str | int | None, "
+                          'postprocess: t.Callable[[t.Any], t.Any] | None=None) -> t.Callable[[t.Any], list[t.Any]]:\n'
+                          '    """Returns a callable that looks up the given comma separated\n'
+                          '    attributes from a passed object with the rules of the environment.\n'
+                          '    Dots are allowed to access attributes of each attribute.  Integer\n'
+                          '    parts in paths are looked up as integers.\n'
+                          '\n'
+                          '    The value returned by the returned callable is a list of extracted\n'
+                          '    attribute values.\n'
+                          '\n'
+                          '    Examples of attribute: "attr1,attr2", "attr1.inner1.0,attr2.inner2.0", etc.\n'
+                          '    """\n'
+                          '    if isinstance(attribute, str):\n'
+                          "        split: t.Sequence[str | int | None] = attribute.split(',')\n"
+                          '    else:\n'
+                          '        split = [attribute]\n'
+                          '    parts = [_prepare_attribute_parts(item) for item in split]\n'
+                          '\n'
+                          '    def attrgetter(item: t.Any) -> list[t.Any]:\n'
+                          '        items = [None] * len(parts)\n'
+                          '        for i, attribute_part in enumerate(parts):\n'
+                          '            item_i = item\n'
+                          '            for part in attribute_part:\n'
+                          '                item_i = environment.getitem(item_i, part)\n'
+                          '            if postprocess is not None:\n'
+                          '                item_i = postprocess(item_i)\n'
+                          '            items[i] = item_i\n'
+                          '        return items\n'
+                          '    return attrgetter'}
